@@ -209,8 +209,15 @@ def parse_const(s):
     return ('named', s)   # named const / fn item / ZST
 
 
+_FNPTR = re.compile(r"^([\w:<>, ']+?) as (?:for<[^>]*> )?(?:unsafe )?(?:extern \"[^\"]*\" )?fn\(.*\)(?: -> .*?)? \(PointerCoercion\(ReifyFnPointer.*\)\)$", re.S)
+
+
 def parse_rvalue(s):
     s = s.strip()
+    m = _FNPTR.match(s)
+    if m and not s.startswith(('move ', 'copy ', 'const ')):
+        # a function item (or a tuple-variant / tuple-struct constructor) coerced to a fn pointer
+        return ('use', ('const', ('named', m.group(1).strip())))
     if s.startswith(('move ', 'copy ', 'no_retag copy ', 'const ')):
         # could be a cast: "move _5 as f64 (IntToFloat)"
         m = re.match(r'^(.*?) as (.*) \((\w+(?:\(.*\))?)\)$', s, re.S)
